@@ -201,4 +201,68 @@ Proof.
     rewrite pb_ret. apply assignK_stop, Cu.
 Qed.
 
+Lemma viaE_plevel f : ViaE f -> forall lv ts, Via true (C_lv lv) (fun g => plevel g lv) (S f) ts.
+Proof.
+  intros (_ & Il & Ilo & Iu & _) lv ts. apply Via_shift. destruct lv as [|l lv'].
+  - eapply Via_ext_all; [intros g y; rewrite plevel_S; reflexivity|].
+    eapply Via_sub; [|apply Iu]. apply C_lv_post.
+  - eapply Via_ext_all; [intros g y; rewrite plevel_S; reflexivity|]. cbv beta.
+    apply (Via_bind eofl false true false (C_lv lv') (C_lv (l :: lv')) (fun g => plevel g lv')
+             (fun g e r => ploop g l lv' e r) f ts []).
+    + apply Il.
+    + intros a r1 _ _. apply Ilo.
+    + right. apply C_lv_cons.
+    + apply FNw_ploop.
+Qed.
+
+Lemma viaE_ploop f : ViaE f -> forall l lv e ts, Via false (C_lv (l :: lv)) (fun g => ploop g l lv e) (S f) ts.
+Proof.
+  intros (_ & Il & Ilo & _) l lv' e ts. apply Via_shift. destruct ts as [|op r].
+  { apply (Via_stop_ok eofl false _ _ e). intros g y [S|Cy]; [same_head S; reflexivity|apply ploop_stop', Cy]. }
+  destruct (kind_in (tk op) (fst l)) eqn:K.
+  - apply Via_weaken.
+    eapply (Via_cons eofl false true _ _
+              (fun g x => pbind (plevel g lv' x) (fun rhs r' => ploop g l lv' (mk_bin (snd l) op e rhs) r')) f op r [idtok]).
+    + intros g x. rewrite ploop_S. cbv beta iota. rewrite K. reflexivity.
+    + apply (FN_bind eofl (C_lv lv') (C_lv (l :: lv')) (fun g => plevel g lv')
+               (fun g rhs r' => ploop g l lv' (mk_bin (snd l) op e rhs) r') [idtok] []).
+      * apply FN_plevel.
+      * split; [constructor|]. intros u Cu. split; [eapply C_lv_cons, Cu|].
+        intros a. exists 1, (mk_bin (snd l) op e a). intros g Hg. destruct g as [|g]; [lia|]. apply ploop_stop', Cu.
+    + apply (Via_bind eofl false true false (C_lv lv') (C_lv (l :: lv')) (fun g => plevel g lv')
+               (fun g rhs r' => ploop g l lv' (mk_bin (snd l) op e rhs) r') f r []).
+      * apply Il.
+      * intros a r1 _ _. apply Ilo.
+      * right. apply C_lv_cons.
+      * split; [constructor|]. intros u Cu. split; [eapply C_lv_cons, Cu|].
+        intros a. exists 1, (mk_bin (snd l) op e a). intros g Hg. destruct g as [|g]; [lia|]. apply ploop_stop', Cu.
+  - apply (Via_stop_ok eofl false _ _ e). intros g y [S|Cy]; [|apply ploop_stop', Cy].
+    same_head S. rewrite ploop_S. cbv beta iota. rewrite K. reflexivity.
+Qed.
+
+(** primary followed by its suffix chain *)
+Definition ppostF (g : nat) (x : list token) : pres expr := pbind (pprimary g x) (fun e r' => pcallloop g e r').
+
+Lemma viaE_punary f : ViaE f -> forall ts, Via true C_post (fun g => punary g) (S f) ts.
+Proof.
+  intros (_ & _ & _ & Iu & Ic & _ & Ipr & _) ts. apply Via_shift.
+  assert (Post : forall ts0, Via true C_post ppostF f ts0).
+  { intros ts0. apply (Via_bind eofl false true false C_any C_post (fun g => pprimary g)
+                         (fun g e r' => pcallloop g e r') f ts0 []).
+    - apply Ipr.
+    - intros a r1 _ _. apply Ic.
+    - right. intros; exact I.
+    - apply (FNw_pcallloop C_any (fun e => e)). intros; exact I. }
+  destruct ts as [|op r].
+  { apply (Via_ext_head eofl false _ _ ppostF); [|apply Post]. intros g y _ S. same_head S. rewrite punary_S. reflexivity. }
+  destruct (kind_in (tk op) unary_ops) eqn:U.
+  - eapply (Via_cons eofl false true _ _
+              (fun g x => pbind (punary g x) (fun e r' => POk (EUnary (tk op) e (tline op)) r' [])) f op r [idtok]).
+    + intros g x. rewrite punary_S. cbv beta iota. rewrite U. reflexivity.
+    + apply (FN_map eofl C_post (fun g => punary g) (fun e => EUnary (tk op) e (tline op))), FN_punary.
+    + apply (Via_map eofl false true C_post (fun g => punary g) (fun e => EUnary (tk op) e (tline op))), Iu.
+  - apply (Via_ext_head eofl false _ _ ppostF); [|apply Post]. intros g y _ S. same_head S.
+    rewrite punary_S. cbv beta iota. rewrite U. reflexivity.
+Qed.
+
 End Viable.
